@@ -24,6 +24,7 @@ type Chan[T any] struct {
 func Make[T any](n int) *Chan[T] { return &Chan[T]{cap: n} }
 
 func (c *Chan[T]) Len() int     { return len(c.buf) }
+func (c *Chan[T]) Cap() int     { return c.cap }
 func (c *Chan[T]) Closed() bool { return c.closed }
 
 func (c *Chan[T]) sendReady() bool { return c == nil || c.closed || len(c.buf) < c.cap }
